@@ -205,10 +205,6 @@ Qed.
 Lemma key_names_impl_lemma : key_names = key_names_impl.
 Proof. vm_compute. reflexivity. Qed.
 
-Lemma key_names_parse_lemma :
-  key_parse_tab = map (fun kn => (snd kn, Some (snd (fst kn), snd (fst (fst kn))))) (combine keys_table key_names).
-Proof. vm_compute. reflexivity. Qed.
-
 (* index i < 12: major key with tonic pitch class i; index 12 + i: minor key with tonic pitch class i *)
 Definition letter_pc (s : string) : Z :=
   match s with
@@ -230,6 +226,27 @@ Definition keys_layout_ok : bool :=
 
 Lemma keys_layout_lemma : keys_layout_ok = true /\ List.length keys_table = 24%nat.
 Proof. split; vm_compute; reflexivity. Qed.
+
+(* every name is accepted by key_name_to_fifths_mode (run on the working tree, tabulated in
+   key_parse_tab) and what it answers MEANS the name: the mode of the KEYS entry, -7..7 fifths, and
+   a key signature whose tonic (major: 7 f mod 12, minor: 7 f + 9 mod 12) is the pitch class the
+   name spells.  (The fifths column of KEYS is not used: estimate_key never reads it.) *)
+Definition parse_entry_ok (k : string * string * Z) (e : string * option (Z * string)) (nm : string) : bool :=
+  String.eqb (fst e) nm &&
+  match snd e with
+  | Some (f, m) =>
+      String.eqb m (snd (fst k)) && (-7 <=? f) && (f <=? 7) &&
+      ((7 * f + (if String.eqb m "minor" then 9 else 0)) mod 12 =? letter_pc (fst (fst k)) mod 12)
+  | None => false
+  end.
+
+Definition key_names_parse_ok : bool :=
+  Nat.eqb (List.length key_parse_tab) 24 &&
+  forallb (fun x => parse_entry_ok (fst (fst x)) (snd (fst x)) (snd x))
+          (combine (combine keys_table key_parse_tab) key_names).
+
+Lemma key_names_parse_lemma : key_names_parse_ok = true.
+Proof. vm_compute. reflexivity. Qed.
 
 (* ------------------------------------------------------------------ *)
 (* 2. octave shifts *)
@@ -414,12 +431,67 @@ Proof.
   rewrite E1, E2. split; reflexivity.
 Qed.
 
+(* the property's own words: "transposing the input by k semitones transposes the estimated tonic by
+   k with the same mode" -- tonic and mode READ FROM the KEYS entry of the estimated key *)
+Definition key_entry (i : Z) : string * string * Z := nth (Z.to_nat i) keys_table (""%string, ""%string, 0).
+Definition key_tonic_pc (i : Z) : Z := letter_pc (fst (fst (key_entry i))) mod 12.
+Definition key_mode (i : Z) : string := snd (fst (key_entry i)).
+
+Definition layout_sweep : bool :=
+  forallb (fun i => Z.eqb (key_tonic_pc i) (i mod 12) &&
+                    String.eqb (key_mode i) (if Z.ltb i 12 then "major" else "minor")%string) (zrange 0 24).
+
+Lemma layout_spec : forall i, 0 <= i < 24 ->
+  key_tonic_pc i = i mod 12 /\ key_mode i = (if Z.ltb i 12 then "major" else "minor")%string.
+Proof.
+  intros i Hi. assert (H : layout_sweep = true) by (vm_compute; reflexivity).
+  pose proof (forallb_In _ _ H i (zrange_In 0 24 i ltac:(lia))) as H1. cbv beta in H1.
+  apply andb_true_iff in H1. destruct H1 as [H1 H2]. split.
+  - apply Z.eqb_eq. exact H1.
+  - apply String.eqb_eq. exact H2.
+Qed.
+
+Lemma key_transpose_tonic_lemma : forall s ns j i,
+  unique_max (key_lt (profile_set s) (ky_hist ns)) i ->
+  let k := estimate_key_idx (profile_set s) ns in
+  let k' := estimate_key_idx (profile_set s) (transpose j ns) in
+  key_tonic_pc k' = (key_tonic_pc k + j) mod 12 /\ key_mode k' = key_mode k /\
+  estimate_key (profile_set s) ns = nth (Z.to_nat k) key_names "?"%string /\
+  estimate_key (profile_set s) (transpose j ns) = nth (Z.to_nat k') key_names "?"%string.
+Proof.
+  intros s ns j i U k k'.
+  destruct (key_transpose_equivariant_lemma (profile_set s) ns j i (circulant_rows_lemma s) U) as [E1 E2].
+  subst k k'. rewrite E1, E2. destruct U as [Hi _].
+  pose proof (rot_key_range j i Hi) as Hr.
+  destruct (layout_spec i Hi) as [P1 M1]. destruct (layout_spec _ Hr) as [P2 M2].
+  rewrite P1, P2, M1, M2. unfold estimate_key. rewrite E1, E2.
+  unfold rot_key in *. destruct (i <? 12) eqn:E.
+  - assert (Hm : 0 <= (i + j) mod 12 < 12) by (apply Z.mod_pos_bound; lia).
+    replace ((i + j) mod 12 <? 12) with true by (symmetry; apply Z.ltb_lt; lia).
+    repeat split. rewrite Z.mod_mod by lia. rewrite Zplus_mod_idemp_l. reflexivity.
+  - assert (Hm : 0 <= (i - 12 + j) mod 12 < 12) by (apply Z.mod_pos_bound; lia).
+    replace (12 + (i - 12 + j) mod 12 <? 12) with false by (symmetry; apply Z.ltb_ge; lia).
+    repeat split. zb.
+    replace (12 + (i - 12 + j) mod 12) with ((i - 12 + j) mod 12 + 1 * 12) by lia.
+    rewrite Z_mod_plus_full, Z.mod_mod by lia. rewrite Zplus_mod_idemp_l.
+    replace (i - 12 + j) with (i + j + (-1) * 12) by lia. rewrite Z_mod_plus_full. reflexivity.
+Qed.
+
 (* the hypotheses are satisfiable: a C major triad is estimated as C, a third higher as E *)
 Example key_example :
   estimate_key key_matrix_kk [(60, 4); (64, 2); (67, 2); (72, 4)] = "C"%string /\
   estimate_key key_matrix_kk (transpose 4 [(60, 4); (64, 2); (67, 2); (72, 4)]) = "E"%string /\
   forallb (fun k => (k =? 0) || key_lt key_matrix_kk (ky_hist [(60, 4); (64, 2); (67, 2); (72, 4)]) k 0)
           (zrange 0 24) = true.
+Proof. vm_compute. repeat split; reflexivity. Qed.
+
+(* ... and the hypothesis "one key attains the maximum" of the transposition theorems cannot be
+   dropped: the chromatic cluster (every pitch class equally long) correlates with nothing, every
+   comparison is false, the first key wins before and after transposing, which is not key 0 moved *)
+Example key_transpose_tie_example :
+  let ns := map (fun p => (p, 1)) (zrange 60 12) in
+  estimate_key_idx (profile_set 0) ns = 0 /\ estimate_key_idx (profile_set 0) (transpose 1 ns) = 0 /\
+  rot_key 1 0 = 1.
 Proof. vm_compute. repeat split; reflexivity. Qed.
 
 (* unique_max is satisfiable: for the C major triad above key 0 (C major) beats the 23 others strictly *)
